@@ -181,7 +181,7 @@ GenNext ==
     \/ RecoverStart \/ RecoverRec \/ RecoverDone
     \/ (W(15) /\ \E t \in BOOLEAN : IoFailAppend(t))
     \/ (W(15) /\ LET n == NextToEnact IN n.r # 0 /\ IoFailEnact(RandomElement(SUBSET DOMAIN logs[n.f].recs[n.r].w)))
-    \/ (W(8) /\ IoFailOther) \/ DropErr
+    \/ (W(IF NumCq >= 2 THEN 45 ELSE 6) /\ IoFailOther) \/ DropErr
     \/ (\E c \in Cols : CurOpen(c)) \/ (W(12) /\ CurClose)
     \/ CurSeek(RandomElement({k \in Keys : calls >= 0})) \/ CurFirst \/ CurLast
     \/ CurNext \/ CurPrev \/ CurNext \/ CurPrev
@@ -196,4 +196,18 @@ GenNext ==
 GenSpec == Init /\ [][GenNext]_vars
 
 EmitTrace == TLCGet("level") < GenLen \/ PrintT("REPLAY " \o ToJson(trace))
+
+(* Directed generation: breadth-first search (history hidden by the view, so one shortest behaviour per
+   abstract state) prints every behaviour that has just completed a recovery after hitting a coverage tag. *)
+DirView == <<ViewLogical, cov>>
+DirBound == Len(trace) <= GenLen
+DirEmit == ~(cov # {} /\ mode = "open" /\ Len(trace) > 0 /\ trace[Len(trace)].a \in {"Reopen", "CloseOpen"})
+           \/ PrintT("REPLAY " \o ToJson(trace))
+DirNext ==
+    \/ (\E k \in Keys, v \in 1..NVals : Commit(<<[c |-> 1, k |-> k, t |-> "set", v |-> v]>>))
+    \/ ProcessCommit \/ FlushLog \/ EnactOne \/ LogEof \/ Clean
+    \/ (Len(logs) >= 3 /\ CloseOpen)
+    \/ Crash \/ RecoverStart \/ RecoverRec \/ RecoverDone
+    \/ IoFailOther \/ DropErr
+DirSpec == Init /\ [][DirNext]_vars
 =============================================================================
